@@ -2,7 +2,7 @@
    (InMemoryTrie.Load = load_all), and the specification side of the point reads. *)
 From Common Require Import Bytes Outcome Blake2b.
 From TrieCodec Require Import Codec View Db ProofsBasic ProofsDecode ProofsDb ProofsLookup.
-From C04 Require Import Model.
+From C04 Require Import Model Gen.
 Local Open Scope N_scope.
 
 Section All.
@@ -39,34 +39,62 @@ Qed.
 Lemma obind_Ok {A B} (a : A) (f : A -> outcome B) : obind (Ok a) f = f a.
 Proof. reflexivity. Qed.
 
+(* the child-trie loop of load_all as a named function *)
+Fixpoint load_cts (fuel : nat) (d : db) (l : list (list byte * list byte))
+  : outcome (list (list byte * option tnode)) :=
+  match l with
+  | [] => Ok []
+  | (k, v) :: r =>
+    if is_prefix child_prefix k then
+      obind (load H st dfix fuel d (child_root v)) (fun c =>
+      obind (load_cts fuel d r) (fun r' => Ok ((child_root v, c) :: r')))
+    else load_cts fuel d r
+  end.
+
+(* load_all's anonymous loop is load_cts *)
+Lemma load_all_loop fuel d : forall l,
+  (fix go (l : list (list byte * list byte)) : outcome (list (list byte * option tnode)) :=
+     match l with
+     | [] => Ok []
+     | (k, v) :: r =>
+       if is_prefix child_prefix k then
+         let h := pad_front 32 (skipn (length v - 32) v) in
+         obind (load H st dfix fuel d h) (fun c => obind (go r) (fun r' => Ok ((h, c) :: r')))
+       else go r
+     end) l = load_cts fuel d l.
+Proof.
+  induction l as [|[k v] l IH]; [reflexivity|].
+  cbn [load_cts]. rewrite <- IH. reflexivity.
+Qed.
+
 Theorem load_all_has t d fuel cts :
   wf_node t = true -> has d (needs H true t) -> H (encode H t) <> empty_root H ->
   (height t <= fuel)%nat ->
   Forall2 (child_ok d fuel) (child_roots (Some t)) cts ->
   load_all H st dfix fuel d (H (encode H t)) = Ok (Some t, combine (child_roots (Some t)) cts).
 Proof.
-  intros W Hh Hne Hf Hc. unfold load_all.
-  rewrite (load_has H Hlen st dfix t d W Hh Hne fuel Hf). rewrite obind_Ok.
-  unfold child_roots in *. revert cts Hc. generalize (entries (Some t)) as l.
+  intros W Hh Hne Hf Hc.
   assert (Hgo : forall l cts, Forall2 (child_ok d fuel) (roots_of l) cts ->
-    (fix go (l : list (list byte * list byte)) : outcome (list (list byte * option tnode)) :=
-       match l with
-       | [] => Ok []
-       | (k, v) :: r =>
-         if is_prefix child_prefix k then
-           let h := pad_front 32 (skipn (length v - 32) v) in
-           obind (load H st dfix fuel d h) (fun c => obind (go r) (fun r' => Ok ((h, c) :: r')))
-         else go r
-       end) l = Ok (combine (roots_of l) cts)).
-  { induction l as [|[k v] l IH]; intros cts Hc.
-    - inversion Hc. reflexivity.
-    - unfold roots_of in Hc |- *. cbn [filter fst] in Hc |- *.
+                load_cts fuel d l = Ok (combine (roots_of l) cts)).
+  { induction l as [|[k v] l IH]; intros cts0 Hc0.
+    - inversion Hc0. reflexivity.
+    - unfold roots_of in Hc0 |- *. cbn [filter fst load_cts] in Hc0 |- *.
       destruct (is_prefix child_prefix k).
-      + cbn [map snd] in Hc |- *. inversion Hc as [|h c hs cs Hhc Hrest]; subst.
-        cbv zeta. fold (child_root v). rewrite (load_child d fuel _ c Hhc). cbn [obind].
-        fold (roots_of l) in Hrest. rewrite (IH cs Hrest). reflexivity.
-      + fold (roots_of l) in Hc. exact (IH cts Hc). }
-  intros l cts Hc. Show. rewrite (Hgo l cts Hc). rewrite obind_Ok. reflexivity.
+      + cbn [map snd] in Hc0 |- *. inversion Hc0 as [|h c hs cs Hhc Hrest]; subst.
+        rewrite (load_child d fuel _ c Hhc). rewrite obind_Ok.
+        fold (roots_of l) in Hrest. rewrite (IH cs Hrest). rewrite obind_Ok. reflexivity.
+      + fold (roots_of l) in Hc0. exact (IH cts0 Hc0). }
+  unfold load_all.
+  rewrite (load_has H Hlen st dfix t d W Hh Hne fuel Hf). rewrite obind_Ok.
+  rewrite load_all_loop. unfold child_roots in Hc |- *.
+  rewrite (Hgo (entries (Some t)) cts Hc). rewrite obind_Ok. reflexivity.
+Qed.
+
+(* constants of the Go source (coq/C04/Gen.v is regenerated from /repo by every check run):
+   common.BytesToHash yields common.HashLength bytes — the key under which a child trie root is looked up *)
+Example gen_hash_length_child_root v : Z.of_nat (length (child_root v)) = Gen.hash_length.
+Proof.
+  unfold child_root, pad_front, Gen.hash_length. unfold zeros. rewrite app_length, repeat_length, skipn_length. lia.
 Qed.
 
 (* the in-memory state as a finite map: a key reads v exactly when (key, v) is an entry *)
